@@ -215,6 +215,17 @@ pub fn run(report: &mut Report, replay: Option<&Value>) {
             }
         }
     }
+    // the generated enum's own catch-all variant is `Other`: a schema value of that name (as
+    // spelled, or after normalization) is a name like any other
+    for w in ["Other", "other", "OTHER", "Unknown"] {
+        for rust in [false, true] {
+            k += 1;
+            if let Some(mut it) = point(w, "enum_value", rust, if k % 3 == 0 { Delivery::Derive } else { Delivery::Library }) {
+                it.base.features.set.insert("catch_all_name");
+                items.push(it);
+            }
+        }
+    }
     report.extra.insert("keyword_case_variant_points".into(), json!(n_case_variants));
     let n_keyword_points = items.len();
     for (si, st) in ALL_STYLES.iter().enumerate() {
